@@ -964,6 +964,23 @@ func (e *Exec) callBuiltin(th *Thread, caller *Frame, site ssa.Instruction, b *s
 					}
 				}
 			}
+		case SliceV:
+			if x.Base == nil {
+				return nil
+			}
+			var elem types.Type
+			if sig, ok := b.Type().(*types.Signature); ok && sig.Params().Len() == 1 {
+				if st, ok := sig.Params().At(0).Type().Underlying().(*types.Slice); ok {
+					elem = st.Elem()
+				}
+			}
+			if elem == nil {
+				panic(unsupported("clear of a slice of unknown element type"))
+			}
+			n := e.concretizeLen(caller, site, e.lenOf(x))
+			for i := 0; i < n; i++ {
+				e.sliceSet(caller, site, x, i, e.zero(elem))
+			}
 		default:
 			panic(unsupported("clear of non-map"))
 		}
